@@ -552,6 +552,7 @@ type Engine struct {
 	vacuity   []vacuityProbe
 	onReturn  func(fn *ssa.Function, r pathResult)
 	onExit    func(fn *ssa.Function, s *State)
+	mapIters   [][]Value
 	pendingPre *Heap
 	globalPlaces map[string]*Term
 	detCur    *mapLoopInfo
